@@ -16,7 +16,7 @@ but a turn runs a whole *statement* to completion.
 namespace Fs.Sched
 
 inductive Key
-  | db (d : Nat) | schema (d s : Nat) | tbl (t : Nat) | lock
+  | db (d : Nat) | schema (d s : Nat) | tbl (t : Nat) | lock (n : Nat)
 deriving DecidableEq, Repr
 
 structure Val where
@@ -61,7 +61,7 @@ inductive Instr
   | call (k : Key) (op : Op)
   | probe (k : Key)                      -- `select … from information_schema.schemata …`: remembers "absent"
   | callIfAbsent (k : Key) (op : Op)     -- runs only when the last probe found the object absent
-  | acquire | release                    -- the connect lock
+  | acquire (n : Nat) | release (n : Nat)   -- lock number n (the connect lock of the instance is lock 0)
 deriving DecidableEq, Repr
 
 abbrev Stmt := List Instr
@@ -93,7 +93,7 @@ def settle (absent : Bool) (cur : List Instr) : List Stmt → List Instr × List
     | is => (is, s :: rest)
 
 /-- what is left of a statement after one of its calls raised: only the lock release (`with lock:` unwinds) -/
-def unwind (is : List Instr) : List Instr := is.filter fun i => i == .release
+def unwind (is : List Instr) : List Instr := is.filter fun i => match i with | .release _ => true | _ => false
 
 /-- The next scheduling point of session `i`, as a function of its local state only: the key it touches and what
     happens to (the value at that key, the local state).  `none` = the session has finished.  A blocked `acquire`
@@ -103,9 +103,9 @@ def stepOf (i : Nat) (l : Loc) : Option (Key × (Val → Val × Loc)) :=
   | ([], _) => none
   | (ins :: cur', rest) =>
     match ins with
-    | .acquire => some (.lock, fun v =>
+    | .acquire n => some (.lock n, fun v =>
         if v.held = none then ({ v with held := some i }, { l with cur := cur', rest := rest }) else (v, l))
-    | .release => some (.lock, fun v => ({ v with held := none }, { l with cur := cur', rest := rest }))
+    | .release n => some (.lock n, fun v => ({ v with held := none }, { l with cur := cur', rest := rest }))
     | .probe k => some (k, fun v =>
         (v, { l with cur := cur', rest := rest, absent := !v.ex, out := l.out ++ [.flag v.ex] }))
     | .call k op => some (k, fun v =>
@@ -147,13 +147,29 @@ def runStmts (c : Cfg) : List Nat → Cfg
 
 /-! ### fakesnow's statements as instruction lists -/
 
-/-- `connect(database=d, schema=s)` with create_database / create_schema on (`conn.py:55-101`), as repaired:
-    the bootstrap runs under the instance lock -/
-def connectStmt (locked : Bool) (d s : Nat) : Stmt :=
-  (if locked then [.acquire] else []) ++
-  [.probe (.db d), .callIfAbsent (.db d) .create, .callIfAbsent (.db d) .setInfo,
-   .probe (.schema d s), .callIfAbsent (.schema d s) .create, .probe (.schema d s)] ++
-  (if locked then [.release] else [])
+/-- `connect(database=d, schema=s)` (`conn.py:55-101`) for the four combinations of create_database_on_connect (`cd`) and
+    create_schema_on_connect (`cs`), run under lock `lock` (`none` = no lock).  Names are the *folded* (upper-cased)
+    names: `conn.py` upper-cases `database` and `schema` before anything else, so every spelling of a name is the same
+    `d` / `s` here.  (The repaired code's extra "database exists" check before CREATE SCHEMA is a read-only probe that is
+    always true in the modelled configurations – with `cd` off the database is assumed to exist – and is left out.) -/
+def connectWith (lock : Option Nat) (cd cs : Bool) (d s : Nat) : Stmt :=
+  (match lock with | some n => [.acquire n] | none => []) ++
+  (if cd then [.probe (.db d), .callIfAbsent (.db d) .create, .callIfAbsent (.db d) .setInfo] else []) ++
+  (if cs then [.probe (.schema d s), .callIfAbsent (.schema d s) .create] else []) ++
+  [.probe (.schema d s)] ++
+  (match lock with | some n => [.release n] | none => [])
+
+/-- the default configuration (both flags on); `locked` = under the instance lock (lock 0) of the `fix:` commit -/
+def connectStmt (locked : Bool) (d s : Nat) : Stmt := connectWith (if locked then some 0 else none) true true d s
+
+/-- a name as the caller writes it: what matters (`id`) and how it is spelled (letter case) -/
+structure Name where
+  id : Nat
+  spelling : Nat
+deriving DecidableEq, Repr
+
+/-- connect with names as written: the spelling is folded away before the ladder runs -/
+def connectSpelled (lock : Option Nat) (cd cs : Bool) (d s : Name) : Stmt := connectWith lock cd cs d.id s.id
 
 def createTable (t : Nat) (cmt : Option Nat) : Stmt :=
   [.call (.tbl t) .create] ++ (match cmt with | some c => [.call (.tbl t) (.setCmt c)] | none => [])
@@ -164,7 +180,7 @@ def showStmt (t : Nat) : Stmt := [.call (.tbl t) .readMeta]
 def mergeStmt (t : Nat) (src : List (Nat × Nat)) : Stmt := [.call (.tbl t) (.mergeUpd src), .call (.tbl t) (.mergeIns src)]
 
 /-- the specification needs no lock -/
-def stripLock (s : Stmt) : Stmt := s.filter fun i => !(i == .acquire || i == .release)
+def stripLock (s : Stmt) : Stmt := s.filter fun i => match i with | .acquire _ => false | .release _ => false | _ => true
 
 def Cfg.init (progs : List (List Stmt)) : Cfg :=
   { g := fun _ => {}, loc := fun i => { rest := progs.getD i [] } }
@@ -199,6 +215,6 @@ def Stmt.single : Stmt → Bool
 
 /-- keys a statement can touch -/
 def Instr.key : Instr → Option Key
-  | .call k _ => some k | .probe k => some k | .callIfAbsent k _ => some k | .acquire => some .lock | .release => some .lock
+  | .call k _ => some k | .probe k => some k | .callIfAbsent k _ => some k | .acquire n => some (.lock n) | .release n => some (.lock n)
 
 end Fs.Sched
